@@ -72,12 +72,57 @@ fn judge_isolated(case: &Case, tally: &mut Tally) -> Verdict {
         Ok(e) => e,
         Err(_) => return Verdict::Invalid("cannot find the running binary".into()),
     };
-    let out = std::process::Command::new(exe).arg("C01").arg("quick").arg("--replay").arg(&path).env("VERIF_ISOLATED_CHILD", "1").output();
+    // Time is never the oracle here: a child that has not finished after 20 s (a slow or
+    // busy machine - several of these run side by side) is killed and the case counts as
+    // inconclusive, well before the in-process watchdog (30 s) would look at this worker.
+    let child = std::process::Command::new(exe)
+        .arg("C01")
+        .arg("quick")
+        .arg("--replay")
+        .arg(&path)
+        .env("VERIF_ISOLATED_CHILD", "1")
+        .stdout(std::process::Stdio::piped())
+        .stderr(std::process::Stdio::piped())
+        .spawn();
+    let mut child = match child {
+        Ok(c) => c,
+        Err(e) => {
+            let _ = std::fs::remove_file(&path);
+            return Verdict::Invalid(format!("cannot start the isolated run: {}", e));
+        }
+    };
+    let t0 = std::time::Instant::now();
+    let finished = loop {
+        match child.try_wait() {
+            Ok(Some(_)) => break true,
+            Ok(None) => {
+                if t0.elapsed().as_secs() >= 20 {
+                    break false;
+                }
+                std::thread::sleep(std::time::Duration::from_millis(20));
+            }
+            Err(_) => break false,
+        }
+    };
+    if !finished {
+        let _ = child.kill();
+        let _ = child.wait();
+        let _ = std::fs::remove_file(&path);
+        tally.class("isolated_run_too_slow_inconclusive");
+        return Verdict::Invalid("isolated run did not finish within 20 s on this machine (inconclusive, not a violation)".into());
+    }
+    let out = child.wait_with_output();
     let _ = std::fs::remove_file(&path);
     match out {
-        Err(e) => Verdict::Invalid(format!("cannot start the isolated run: {}", e)),
+        Err(e) => Verdict::Invalid(format!("cannot collect the isolated run: {}", e)),
         Ok(o) => {
             if let Some(sig) = o.status.signal() {
+                if !matches!(sig, 4 | 6 | 7 | 8 | 11) {
+                    // not SIGILL / SIGABRT / SIGBUS / SIGFPE / SIGSEGV: killed from outside
+                    // (OOM killer, operator) - says nothing about avt
+                    tally.class("isolated_run_killed_from_outside_inconclusive");
+                    return Verdict::Invalid(format!("isolated run was killed by signal {} from outside (inconclusive)", sig));
+                }
                 let err = String::from_utf8_lossy(&o.stderr);
                 let line = err.lines().rev().find(|l| !l.trim().is_empty()).unwrap_or("").to_string();
                 return Verdict::fail("abort", format!("the process running this case alone was killed by signal {} ({})", sig, crate::case::clip(&line, 200)));
@@ -100,7 +145,7 @@ fn judge_isolated(case: &Case, tally: &mut Tally) -> Verdict {
 fn isolated_cases() -> Vec<Case> {
     let mut v = vec![];
     let text = |n: usize| -> String { (0..n).map(|k| (b'a' + (k % 26) as u8) as char).collect() };
-    for (cols, k) in [(1usize, 3_000usize), (1, 40_000), (2, 20_000), (3, 100_000), (1, 150_000)] {
+    for (cols, k) in [(1usize, 3_000usize), (1, 12_000), (2, 20_000), (3, 30_000), (1, 40_000)] {
         for limit in [None, Some(0)] {
             // k characters wrap over k / cols rows; one resize makes them a single row
             v.push(Case::new(cols, 2, limit).feed(text(k)).resize(k + 3, 2).feed("x\r\ny"));
@@ -112,7 +157,7 @@ fn isolated_cases() -> Vec<Case> {
             v.push(Case::new(kn + 3, 2, limit).feed(text(kn)).resize(cols, 2).resize(kn / 2, 3).feed("x"));
             // character by character, dump and text in between
             let mut c = Case::new(cols, 3, limit);
-            c.calls.push(Call::Feed(text(k.min(30_000))));
+            c.calls.push(Call::Feed(text(k.min(8_000))));
             c.calls.push(Call::Dump);
             c.calls.push(Call::Resize(k, 1));
             c.calls.push(Call::Text);
@@ -122,8 +167,8 @@ fn isolated_cases() -> Vec<Case> {
         }
     }
     // tall and wide extremes
-    v.push(Case::new(2, 60_000, Some(100)).feed("\n".repeat(70_000)).resize(3, 60_000).resize(2_000, 20).feed("\x1b[65535S\x1b[65535T"));
-    v.push(Case::new(65_535, 1, Some(10)).feed("\x1b[65535b\x1b[65535@\x1b[65535P").resize(65_535, 3).feed("\x1b[65535L\x1b[65535M"));
+    v.push(Case::new(2, 20_000, Some(100)).feed("\n".repeat(25_000)).resize(3, 20_000).resize(2_000, 20).feed("\x1b[65535S\x1b[65535T"));
+    v.push(Case::new(20_000, 1, Some(10)).feed("\x1b[65535b\x1b[65535@\x1b[65535P").resize(20_000, 3).feed("\x1b[65535L\x1b[65535M"));
     for c in v.iter_mut() {
         c.nums = vec![0, 1];
     }
@@ -131,9 +176,34 @@ fn isolated_cases() -> Vec<Case> {
 }
 
 pub fn judge(part: &str, case: &Case, tally: &mut Tally) -> Verdict {
-    if part == "isolated-extremes" && std::env::var("VERIF_ISOLATED_CHILD").is_err() {
+    let child = std::env::var("VERIF_ISOLATED_CHILD").is_ok();
+    if part == "isolated-extremes" && !child {
         return judge_isolated(case, tally);
     }
+    if child {
+        // In the child the case runs on a thread with a 1 MiB stack (a main thread has 8 MiB):
+        // avt's own code is not recursive and needs a few KiB, so recursion that grows with
+        // the input overflows - and aborts the process - at a depth of a few thousand frames.
+        let mut t2 = Tally::default();
+        let v = std::thread::scope(|sc| {
+            std::thread::Builder::new()
+                .stack_size(1 << 20)
+                .spawn_scoped(sc, || judge_inner(case, &mut t2))
+                .map(|h| h.join())
+        });
+        return match v {
+            Ok(Ok(v)) => {
+                tally.steps += t2.steps;
+                v
+            }
+            Ok(Err(p)) => std::panic::resume_unwind(p),
+            Err(_) => Verdict::Invalid("cannot start the small-stack thread".into()),
+        };
+    }
+    judge_inner(case, tally)
+}
+
+fn judge_inner(case: &Case, tally: &mut Tally) -> Verdict {
     let drain_mode = case.nums.first().copied().unwrap_or(0);
     let collector = case.nums.get(1).copied().unwrap_or(0) == 1;
     let mut vt = new_vt(case.cols, case.rows, case.limit);
@@ -361,7 +431,9 @@ pub fn run(env: &Env) -> PropRun {
     {
         let iso = isolated_cases();
         let ji = |c: &Case, t: &mut Tally| judge("isolated-extremes", c, t);
-        parts.push(run_part(env, "isolated-extremes", iso.len(), true, "chains of 3 000 - 150 000 soft-wrapped rows merged into one row by a single widening and split again, per-character feeding with dump/text in between, 60 000-row and 65 535-column screens; each case in a child process so that a stack overflow or abort is seen", &|i| iso.get(i).cloned(), &ji));
+        let env4 = Env { prop: env.prop.clone(), tier: env.tier, seed: env.seed, threads: env.threads.min(4), verif_dir: env.verif_dir.clone() };
+        let env = &env4;
+        parts.push(run_part(env, "isolated-extremes", iso.len(), true, "chains of 3 000 - 40 000 soft-wrapped rows merged into one row by a single widening and split again, per-character feeding with dump/text in between, 20 000-row and 20 000-column screens; each case in a child process so that a stack overflow or abort is seen", &|i| iso.get(i).cloned(), &ji));
     }
     {
         // states that only a restored cursor or a width-only resize reaches (origin mode on,
